@@ -712,7 +712,10 @@ class Ev:
         self.loop_counter += 1
         env0 = dict(self.env)
         g0 = self.guards
+        handled = tuple(sorted(ast.unparse(h.type) if h.type is not None else "*" for h in st.handlers))
+        self.guards = g0 + ((P.atom(("try", k, handled)), True),)
         self.block(st.body)
+        self.guards = g0
         self.block(st.orelse)
         env_body = self.env
         envs = [env_body]
